@@ -269,6 +269,52 @@ def check_path_imports(chk, tu):
             # the descriptor must carry a path (preopen): closed / pathless descriptors give EBADF (C13 decides the closed state)
 
 
+def check_follow_flag(chk, tu):
+    """R14.11: path_filestat_get with the symlink-follow lookup flag set describes the file the link points to: the host operation is
+    stat() (following), never lstat().  (With the flag clear the specification asks for lstat; upstream always follows - a documented
+    TODO that is noted, not decided.)"""
+    eps = W.entry_points(tu)
+    n = 0
+    for gen, f in sorted(eps.get('path_filestat_get', {}).items()):
+        params = astdb.fn_params(f)[1:]
+        for flagv in (1, 0):
+            state = {}
+
+            def mk(it, st):
+                args = [unk('instance')]
+                for i, p in enumerate(params):
+                    nm = p.get('name', '')
+                    if i == 0:
+                        args.append(DIR_SLOTS[0][0])
+                    elif 'lags' in nm:
+                        args.append(flagv)
+                    else:
+                        args.append(unk('p%d' % i, tu.desugar(astdb.qtype(p))))
+                return args
+            st2 = {}
+            it = W.make_interp(tu, st2, path_leafs(state), max_paths=3000)
+
+            def setup():
+                st2.clear()
+                state.clear()
+                W.seed_globals(it, tu, st2, two_dir_table(), errno_value=5)
+                return (f['name'], mk(it, st2), {})
+            paths = it.explore(setup)
+            ops = set()
+            for p in paths:
+                for nm, a, l in p.events:
+                    if nm in ('extern:stat', 'extern:lstat', 'extern:fstatat', 'extern:stat64', 'extern:lstat64'):
+                        ops.add(nm[7:].replace('64', ''))
+            n += 1
+            if flagv == 1:
+                chk.expect(ops == {'stat'}, 'R14.11', '%s/path_filestat_get:follow' % gen,
+                           'path_filestat_get with the symlink-follow flag set performs %s; it must describe the target of a symbolic link (stat), '
+                           'not the link itself' % (sorted(ops) or 'no stat operation'), 'path_filestat_get:follow-flag')
+            elif ops != {'lstat'}:
+                chk.note('path_filestat_get without the symlink-follow flag performs %s (the specification asks for lstat; upstream TODO)' % sorted(ops))
+    chk.require(n >= 2, 'path_filestat_get not found')
+
+
 def check_resolve(chk, tu):
     """R14.2 on resolvePath itself"""
     chk.fn('resolvePath')
@@ -683,6 +729,8 @@ def run(chk):
     tu = W.wasi_tu()
     chk.unit(tu)
     check_path_imports(chk, tu)
+    check_follow_flag(chk, tu)
+    chk.floor('R14.11', 2)
     check_resolve(chk, tu)
     check_invariant(chk, tu)
     check_readdir(chk, tu)
